@@ -58,6 +58,40 @@ type sworld struct {
 	ops     []string
 	real    []string
 	dead    bool // a terminal error happened on a receive; the case stops making claims
+	pat     *patState
+}
+
+// patState: the big position-dependent message currently being sent (compact `pat:` op payloads)
+type patState struct {
+	seed int
+	msg  []byte
+	off  int
+}
+
+// patByte mirrors Oracle.StreamEngine.patByte: byte i of test pattern `seed`.
+func patByte(seed, i int) byte {
+	return byte(((uint64(i) + uint64(seed)) * 2654435761 % 4294967296) / 16777216)
+}
+
+func patBytes(seed, off, n int) []byte {
+	b := make([]byte, n)
+	for j := range b {
+		b[j] = patByte(seed, off+j)
+	}
+	return b
+}
+
+// payload renders the bytes of a send/write op. While a pattern message is being sent, a chunk that
+// IS the next bytes of the pattern (checked byte for byte) is written as pat:<n>:<seed>:<off>.
+func (w *sworld) payload(data []byte) string {
+	if p := w.pat; p != nil && len(data) > 0 && p.off+len(data) <= len(p.msg) && bytes.Equal(data, p.msg[p.off:p.off+len(data)]) {
+		off := p.off
+		p.off += len(data)
+		if len(data) > 64 {
+			return fmt.Sprintf("pat:%d:%d:%d", len(data), p.seed, off)
+		}
+	}
+	return orc.Payload(data)
 }
 
 var bg = context.Background()
@@ -117,17 +151,23 @@ var drawnIVs []drawnIV
 
 // describe renders a frame the endpoint just emitted; protected frames are opened by refcodec.
 func (w *sworld) describe(e *sep, f refcodec.Frame, enc bool) string {
+	d, _ := w.describeP(e, f, enc)
+	return d
+}
+
+// describeP: the rendering and the frame's plaintext (nil when the frame could not be opened)
+func (w *sworld) describeP(e *sep, f refcodec.Frame, enc bool) (string, []byte) {
 	if !enc {
 		e.sent = append(e.sent, sentFrame{f: f})
-		return fmt.Sprintf("F(%d,%d,raw,%s)", f.Flag, f.Len, orc.ShowBytes(f.Body))
+		return fmt.Sprintf("F(%d,%d,raw,%s)", f.Flag, f.Len, orc.ShowBytes(f.Body)), f.Body
 	}
 	if e.dir == nil {
-		return fmt.Sprintf("F(%d,%d,NOKEY)", f.Flag, f.Len)
+		return fmt.Sprintf("F(%d,%d,NOKEY)", f.Flag, f.Len), nil
 	}
 	o, err := e.dir.Open(f)
 	if err != nil {
 		e.sent = append(e.sent, sentFrame{f: f, enc: true})
-		return fmt.Sprintf("F(%d,%d,UNOPENABLE:%v)", f.Flag, f.Len, err)
+		return fmt.Sprintf("F(%d,%d,UNOPENABLE:%v)", f.Flag, f.Len, err), nil
 	}
 	var nn [16]byte
 	copy(nn[:], e.dir.BaseIV[:])
@@ -146,7 +186,7 @@ func (w *sworld) describe(e *sep, f refcodec.Frame, enc bool) string {
 	if o.FirstAAD {
 		aad = fmt.Sprintf("aad=D[%s|%s]", showDig(e.clearSent, e.anySent), showDig(e.clearRecv, e.anyRecv))
 	}
-	return fmt.Sprintf("F(%d,%d,ct,%s,n=%d,%s,k=%d,%s)", f.Flag, f.Len, ivs, o.NonceW0, aad, e.keyID, orc.ShowBytes(o.Plain))
+	return fmt.Sprintf("F(%d,%d,ct,%s,n=%d,%s,k=%d,%s)", f.Flag, f.Len, ivs, o.NonceW0, aad, e.keyID, orc.ShowBytes(o.Plain)), o.Plain
 }
 
 // collect parses what the endpoint wrote, renders it and puts it in flight to the peer.
@@ -214,7 +254,7 @@ func (w *sworld) send(n string, flag int, data []byte) error {
 	} else {
 		err = e.s.SendPartialMessage(bg, data)
 	}
-	op := fmt.Sprintf("send %s %d %s", n, flag, orc.Payload(data))
+	op := fmt.Sprintf("send %s %d %s", n, flag, w.payload(data))
 	if err != nil {
 		e.c.TakeOut()
 		w.log(op, "err "+errClass(err))
@@ -228,7 +268,7 @@ func (w *sworld) write(n string, data []byte) error {
 	e := w.ep(n)
 	enc, fin := e.crypting(), e.finalized
 	err := e.s.WriteMessage(bg, data)
-	op := fmt.Sprintf("write %s %s", n, orc.Payload(data))
+	op := fmt.Sprintf("write %s %s", n, w.payload(data))
 	if err != nil {
 		e.c.TakeOut()
 		w.log(op, "err "+errClass(err))
@@ -293,6 +333,36 @@ func (w *sworld) typedFrame(n string, data []byte, eom bool) error {
 	}
 	w.log(op, strings.TrimRight("ok "+w.collect(e, enc, fin), " "))
 	return nil
+}
+
+// typedBytes sends `data` as ONE message through the typed layer (Message.PutBytes + FinishMessage),
+// which splits it into frames itself. To the stream model every frame the typed layer put on the wire
+// is one `send` of that frame's plaintext with that frame's end flag (the typed layer is a client of
+// WriteFrame); whether the pieces add up to `data` is for the property oracle on the receiving side.
+func (w *sworld) typedBytes(n string, data []byte) error {
+	e := w.ep(n)
+	enc, fin := e.crypting(), e.finalized
+	m := message.NewMessageForStream(e.s)
+	err := m.PutBytes(bg, data)
+	if err == nil {
+		err = m.FinishMessage(bg)
+	}
+	out := e.c.TakeOut()
+	frames, rest := refcodec.ParseFrames(out)
+	for _, f := range frames {
+		d, plain := w.describeP(e, f, enc)
+		w.log(fmt.Sprintf("send %s %d %s", n, f.Flag, w.payload(plain)), "ok "+d)
+	}
+	if len(rest) != 0 {
+		w.log("send "+n+" 1 -", fmt.Sprintf("ok TRAILING(%d)", len(rest)))
+	}
+	if !fin && len(out) > 0 {
+		e.clearSent = append(e.clearSent, out...)
+		e.anySent = true
+	}
+	pn := w.peer(n).name
+	w.pending[pn] = append(w.pending[pn], out...)
+	return err
 }
 
 func (w *sworld) crypto(n string, on bool) {
